@@ -246,7 +246,7 @@ def cmd_check(prop, tier):
     samples = _sample_runs(prop, seed, tier)
     extra = {"regression_replays_of_repaired_findings": n_regress, "regression_replays_failing": len(returned)}
     if agg.sys_total:
-        extra["systematic_layer"] = {"words_over_EUR_up_to_length_6": agg.sys_total, "executed_exactly_as_intended": agg.sys_exact,
+        extra["systematic_layer"] = {"words_over_EUR_up_to_length": runner.sys_len(tier), "words": agg.sys_total, "executed_exactly_as_intended": agg.sys_exact,
                                       "note": "every word is executed once; an E whose candidate edits were all refused shortens the executed word"}
     _evidence(prop, tier, seed, agg, len(unlisted) + len(returned), known_hits, samples, extra)
     ev = agg.stats
